@@ -64,6 +64,16 @@ class SimTimeoutError(SimError, TimeoutError):
         return (SimTimeoutError, (self.label, self.cls, self.retry_after))
 
 
+class SimFalsyError(SimError):
+    """An operation failure whose instance is falsy (an aggregate error with no sub-errors)."""
+
+    def __len__(self):
+        return 0
+
+    def __reduce__(self):
+        return (SimFalsyError, (self.label, self.cls, self.retry_after))
+
+
 class Val:
     """A successful result (identity matters, so never interned)."""
 
@@ -140,6 +150,10 @@ FAULT_EXC = {
     "SystemExit": SystemExit,
     "CancelledError": asyncio.CancelledError,
     "GeneratorExit": GeneratorExit,
+    **{n: getattr(__import__("builtins"), n) for n in (
+        "TypeError", "AttributeError", "IndexError", "AssertionError", "NotImplementedError", "UnicodeError", "EOFError", "ImportError",
+        "MemoryError", "RecursionError", "StopAsyncIteration", "LookupError", "ArithmeticError", "BufferError", "ReferenceError",
+        "SystemError", "ConnectionError", "PermissionError", "Warning")},
 }
 
 
@@ -276,6 +290,7 @@ class CallState:
         self.yields = 0
         self.pending_us = None
         self.none_failure = None
+        self.last_exc_obj = None
         self.handler_dur = script.get("handler_dur") or []
         self.objects = {}
         self.last_cls_obj = None
@@ -408,9 +423,17 @@ class Env:
     def _op_pre(self):
         cs = self.cs()
         k = cs.count("op") + 1
-        step = cs.attempts[min(k - 1, len(cs.attempts) - 1)]
+        step = self._untie(cs.attempts[min(k - 1, len(cs.attempts) - 1)])
         self.ev("OP_BEGIN", k=k)
         return cs, k, step
+
+    def _untie(self, step):
+        """an operation that ends exactly when its per-attempt timeout expires is a genuine race (timer order);
+        the simulation resolves it in favour of the operation, identically in sync and async mode"""
+        T = self.cfg.get("attempt_timeout_us")
+        if T and self.cfg.get("timeouts_fire") and step.get("dur", 0) == T:
+            step = dict(step, dur=T - 1)
+        return step
 
     def _op_post(self, cs: CallState, k: int, step: dict):
         kind = step["kind"]
@@ -433,7 +456,13 @@ class Env:
             self.ev("OP_END", k=k, kind="res", cls=step["cls"], obj=r.label, ra=step.get("ra"))
             return r
         if kind == "exc":
-            e = (SimTimeoutError if step.get("timeout_type") else SimError)("E" + lab, step["cls"], step.get("ra"))
+            prev = cs.last_exc_obj
+            if step.get("reuse") and prev is not None and prev.cls == step["cls"] and prev.retry_after == step.get("ra"):
+                e = prev          # the operation re-raises a cached exception object (e.g. Future.result() of a failed future)
+            else:
+                etype = SimTimeoutError if step.get("timeout_type") else SimFalsyError if step.get("falsy") else SimError
+                e = etype("E" + lab, step["cls"], step.get("ra"))
+            cs.last_exc_obj = e
             cs.objects[e.label] = e
             self.ev("OP_END", k=k, kind="exc", cls=step["cls"], obj=e.label, ra=step.get("ra"), etype=type(e).__name__)
             _raise_here(e)
@@ -466,17 +495,37 @@ class Env:
             _raise_here(e)
         raise AssertionError(f"unknown attempt kind {kind!r}")
 
+    def peek_op_dur(self) -> int:
+        cs = self.cs()
+        k = cs.n.get("op", 0) + 1
+        return self._untie(cs.attempts[min(k - 1, len(cs.attempts) - 1)]).get("dur", 0)
+
     def op_sync(self):
         cs, k, step = self._op_pre()
         self.spend(step.get("dur", 0))
         return self._op_post(cs, k, step)
 
+    def op_sync_abandoned(self, waited_us: int) -> None:
+        """The operation was started but the per-attempt timeout fired first (simulated executor)."""
+        cs, k, step = self._op_pre()
+        self.spend(waited_us)
+        self.fired("attempt_timeout")
+        self.ev("OP_END", k=k, kind="timeout", obj="?TimeoutError", cls=self.cfg.get("timeout_cls", "TRANSIENT"))
+
     async def op_async(self):
         cs, k, step = self._op_pre()
         parts = step.get("parts", 1)
         dur = step.get("dur", 0)
-        for i in range(parts):
-            await self.pause(dur // parts if i else dur - (dur // parts) * (parts - 1), f"op{k}")
+        t_start = self.clock.mono_us
+        try:
+            for i in range(parts):
+                await self.pause(dur // parts if i else dur - (dur // parts) * (parts - 1), f"op{k}")
+        except asyncio.CancelledError:
+            T = self.cfg.get("attempt_timeout_us")
+            if self.cfg.get("timeouts_fire") and T and self.clock.mono_us - t_start == T:
+                self.fired("attempt_timeout")     # asyncio.wait_for gave up on this attempt
+                self.ev("OP_END", k=k, kind="timeout", obj="?TimeoutError", cls=self.cfg.get("timeout_cls", "TRANSIENT"))
+            raise
         return self._op_post(cs, k, step)
 
     # -- classifier / result classifier ------------------------------------
@@ -486,7 +535,7 @@ class Env:
         if isinstance(exc, SimError):
             cls, ra, lab = exc.cls, exc.retry_after, exc.label
         elif isinstance(exc, TimeoutError):
-            cls, ra, lab = "TRANSIENT", None, type(exc).__name__
+            cls, ra, lab = self.cfg.get("timeout_cls", "TRANSIENT"), None, type(exc).__name__
         else:
             cls, ra, lab = "UNKNOWN", None, type(exc).__name__
         self.ev("CLASSIFY", obj=lab, cls=cls, i=i)
